@@ -263,3 +263,20 @@ TECHNIQUE = {
     "C09": "stateful property-based testing with injected faults (impossible symbols, failing writes)",
     "C20": "fuzzing / property-based testing with a process-level oracle (UB checks, overflow checks, sanitizers)",
 }
+
+
+# Properties with an additional Hypothesis-driven search through the Python front end
+# (pycheck/<script>, run with the tooling interpreter against a module built from /repo's tree).
+PYPLAN = {
+    "C19": {
+        "script": "c19_py.py",
+        "quick": 24_000,
+        "thorough": 800_000,
+        "rule": "Python front end: example = arguments of one Python model constructor {Categorical, Uniform, QuantizedGaussian/Laplace/Cauchy, "
+                "Binomial, Bernoulli}, as a concrete model or as a model family whose parameters arrive with the coder call; hostile and valid "
+                "float tables / parameters / supports; oracle: any Python exception (incl. PanicException) = clean failure; an accepted model must "
+                "encode the tried support symbols, round-trip them through the ANS and the range coder, decode arbitrary words to support symbols "
+                "only and refuse the two neighbours of its support; a single-symbol support is never accepted; a killed interpreter or a call "
+                "that does not return is a violation; non-trivial = an accepted model with >= 3 symbols that went through all of these",
+    },
+}
